@@ -1,6 +1,29 @@
 """C06 - every request ends exactly once; closing never hangs; streams are never leaked."""
 import conn_common
+import vf
 
 
 def run(ctx):
     conn_common.run_conn(ctx, "C06")
+    # A statement that changes the schema ends only after the driver's wait for schema agreement
+    # (Conn.awaitSchemaAgreement, started by executeQuery): "within a bounded time of the event that decides
+    # it" includes the caller's cancellation and MaxWaitSchemaAgreement during that wait. SchemaAgree.tla
+    # (extension X01) models that wait; its replay and its monitors run here as well and the clauses that
+    # are C06's are reported under C06. Anything else X01 finds is X01's business (bin/check X01).
+    try:
+        import x01
+        sub = vf.Ctx("X01", ctx.tier, ctx.seed)
+        try:
+            x01.run(sub)
+            mine = [v for v in sub.violations if v["key"].startswith(("await-ignores-cancel", "await-polls-past-deadline",
+                                                                      "await-no-return-on-agreement"))]
+            for v in mine[:10]:
+                ctx.violation("schema-wait:" + v["key"], "a schema-changing statement does not end: " + v["what"], v.get("detail"))
+            ctx.log("schema agreement wait (SchemaAgree.tla): %d violations of C06 clauses, %d other" % (len(mine), len(sub.violations) - len(mine)))
+            if isinstance(ctx.cov, dict):
+                ctx.cov["schema_agreement_wait"] = dict(module="SchemaAgree.tla", c06_violations=len(mine),
+                                                        coverage=(sub.cov or {}).get("agree") if isinstance(sub.cov, dict) else None)
+        finally:
+            sub.cleanup()
+    except vf.Inconclusive as e:
+        ctx.notes.append("schema agreement wait not evaluated in this run: %s" % str(e)[:300])
